@@ -9,19 +9,22 @@ by `vm_compute; reflexivity` on finite domains lifted with the lemmas of coq/Pro
 exactly what the MODEL uses (coq/Lib/SourceTables.v holds the checkers and the constants a model has only implicitly).
 Every obligation that holds prints its `Print Assumptions`, which must be closed.
 
+These are SECONDARY ties (CFG["secondary"] of lib/runner.py): the property is shown by the theorems about the hand model
+and the dynamic correspondence; a failing table obligation is recorded in the evidence and printed as a NOTE, and it is
+supporting detail ("secondary tie also broken") when the primary route finds something.
+
 A failing obligation is reported as
     ("tie", "source table <name> no longer equals the model's",
      {"broken": "source tables <prop>", "table": <name>, "extracted": ..., "coq_output_tail": ...})
-and the other obligations are still attempted (the generated file is re-run without the failing one).  The runner
-prints it as VIOLATION ... no-failing-input-found unless the property's dynamic check finds a failing input (then the
-VIOLATION carries that input and this is listed under "also broken").
+and the other obligations are still attempted (the generated file is re-run without the failing one).
 
 A table the extractor cannot find or read comes out as `(* MISSING <name>: <why> *)` plus a definition that makes
 the obligation fail; a harmless reformatting (hex vs decimal literals, reordered map entries, keyed vs positional
 array elements) leaves the extracted values - or, for maps, the finite map - unchanged.
 
 Ready-made: C01_TABLES C02_TABLES C04_TABLES C05_TABLES C09_TABLES C10_TABLES C11_TABLES C12_TABLES C13_TABLES
-C16_TABLES  (use as  static=[..., tables.C11_TABLES]  in the prop module).
+C16_TABLES  (use as  CFG["secondary"] = CFG.get("secondary", []) + [tables.C11_TABLES]  in the prop module;
+`python3 lib/tables.py [C11 ...]` runs the obligations alone, VERIF_REPO honoured).
 """
 import os
 import re
